@@ -251,12 +251,27 @@ def run_one(ch, cfg):
 
             impatient = ch.draw(3, "client-gives-up-on-the-repair-request") == 1
 
+            # whichever command the client sends repairs the connection first: the request of this
+            # phase is drawn per run (getPubKey twice as often)
+            phase_req = ch.pick([
+                {"command": "getPubKey", "keyId": "m/44'/0'/0'/0/0", "version": 5},
+                {"command": "getPubKey", "keyId": "m/44'/0'/0'/0/0", "version": 5},
+                {"command": "signerHeartbeat", "udValue": "aa" * 16, "version": 5},
+                {"command": "blockchainState", "version": 5},
+                {"command": "blockchainParameters", "version": 5},
+                {"command": "resetAdvanceBlockchain", "version": 5},
+                {"command": "uiHeartbeat", "udValue": "bb" * 32, "version": 5},
+                {"command": "sign", "keyId": "m/44'/137'/0'/0/0", "message": {"hash": "cc" * 32},
+                 "version": 5},
+                {"command": "updateAncestorBlock", "blocks": ["aabb"], "version": 5},
+                {"command": "advanceBlockchain", "blocks": ["aabb"], "brothers": [[]], "version": 5},
+            ], "serve-phase.request")
+
             def ask(gives_up=False):
                 c = w.net.connect()
                 if c is None:
                     return None
-                c.send(_json.dumps({"command": "getPubKey", "keyId": "m/44'/0'/0'/0/0",
-                                    "version": 5}).encode() + b"\n")
+                c.send(_json.dumps(phase_req).encode() + b"\n")
                 if gives_up:
                     # the client times out and resets its connection while the device is busy: the
                     # reply cannot be written - the change attempt still has to end the manager
